@@ -603,6 +603,24 @@ func genVarint(t *rapid.T, label string) uint64 {
 	return rapid.SampledFrom(hostileVarints).Draw(t, label+"big")
 }
 
+// appendHostileVarint appends a varint field: mostly a valid encoding of a hostile value, sometimes an
+// encoding no encoder produces (more than ten bytes, overflowing 64 bits, non-minimal, cut off).
+func appendHostileVarint(t *rapid.T, b []byte, label string) []byte {
+	if rapid.IntRange(0, 4).Draw(t, label+"Raw") > 0 {
+		return binary.AppendUvarint(b, genVarint(t, label))
+	}
+	raw := rapid.SampledFrom([][]byte{
+		append(bytes.Repeat([]byte{0xff}, 10), 0x01), // overflows 64 bits
+		append(bytes.Repeat([]byte{0xff}, 9), 0x7f),  // 10th byte too large
+		bytes.Repeat([]byte{0xff}, 12),               // never terminates within 10 bytes
+		append(bytes.Repeat([]byte{0x80}, 10), 0x00), // eleven bytes of padding
+		{0x80, 0x00},       // non-minimal zero
+		{0x81, 0x80, 0x00}, // non-minimal one
+		{0x80},             // cut off
+	}).Draw(t, label+"Enc")
+	return append(b, raw...)
+}
+
 func TestC08Frag(t *testing.T) {
 	const sub = "C08.fragswarm"
 	ev.Rule(sub, "rapid, executed in a child process: sequences of 1-12 packets told by a raw transport node to a fragmenting swarm: structured (message id from a tiny set so that later packets hit earlier reassembly state, part index / part count from {0..6, 127, 128, 255, 256, 65535, 2^32, 2^63, 2^64-1} so that later packets contradict earlier totals, bodies of 0-60 bytes), truncations of those, and random bytes. Oracle: the process survives and a valid multi-part message from an honest node is still delivered. non-trivial = >= 2 packets with the same message id; distinct by packet sequence")
@@ -618,8 +636,8 @@ func TestC08Frag(t *testing.T) {
 				id := uint64(rapid.IntRange(0, 2).Draw(t, "id"))
 				ids[id]++
 				b = binary.AppendUvarint(b, id)
-				b = binary.AppendUvarint(b, genVarint(t, "part"))
-				b = binary.AppendUvarint(b, genVarint(t, "total"))
+				b = appendHostileVarint(t, b, "part")
+				b = appendHostileVarint(t, b, "total")
 				b = append(b, rapid.SliceOfN(rapid.Byte(), 0, 60).Draw(t, "body")...)
 				if rapid.IntRange(0, 7).Draw(t, "trunc") == 0 {
 					b = b[:rapid.IntRange(0, len(b)).Draw(t, "cut")]
